@@ -284,8 +284,10 @@ def load_image_band(filename,
         hdulist = expand(filename)
         header = hdulist[0].header
 
-    row_min = int(header['NAXIS2']/band[1] * (band[0]))
-    row_max = int(header['NAXIS2']/band[1] * (band[0]+1))
+    # integer arithmetic: rows/n*(i+1) in floating point can land just below
+    # an integer (and below rows for the last band) and drop a row
+    row_min = header['NAXIS2'] * band[0] // band[1]
+    row_max = header['NAXIS2'] * (band[0]+1) // band[1]
 
     if compressed:
         return hdulist[0].data[row_min:row_max, :], header
